@@ -35,7 +35,7 @@ func init() {
 			"a tick-budget abort, a worker killed by the memory limit or a call still running at the 60 s watchdog is a violation; non-trivial = a call that returns a non-empty value; distinct_nontrivial counts distinct results",
 		Phases: []core.Phase{{Name: "magnitude", Build: "instr", Fn: c09RunMagnitude, CrashIsViolation: true}, {Name: "growth", Build: "instr", Fn: c09RunGrowth, CrashIsViolation: true},
 			{Name: "many-expressions", Build: "instr", Procs: 1, Fn: c09RunMany, CrashIsViolation: true},
-			{Name: "all-texts", Build: "instr", Fn: c09RunTexts, CrashIsViolation: true}, {Name: "after-a-large-call", Build: "instr", Procs: 8, Fn: c09RunAfter, CrashIsViolation: true}},
+			{Name: "all-texts", Build: "instr", Fn: c09RunTexts, CrashIsViolation: true}, {Name: "after-a-large-call", Build: "instr", Procs: 26, Fn: c09RunAfter, CrashIsViolation: true}},
 		Judge: c09Judge,
 		Assumptions: []string{
 			"work inside the standard library and the decimal128 package is not counted in loop iterations; it is seen through bytes allocated, the memory limit and the watchdog",
